@@ -45,7 +45,7 @@ prop("C22",
      residual="printing of A1/R1C1 addresses (format!) and sheet-name quoting read back by the lexer are string code outside Verus' reach")
 
 prop("C11",
-     units=["colcodec", "fmtpanic", "lexpanic", "refparse", "fmtlex", "cursor", "f4", "dates", "argidx"],
+     units=["colcodec", "fmtpanic", "lexpanic", "refparse", "fmtlex", "cursor", "f4", "dates", "argidx", "lexerr"],
      scans=["chrono-panicking-ops"],
      level="proof",
      claim="no panic (overflow, index, unwrap, division) in the listed text-consuming functions for ANY input string",
@@ -161,10 +161,11 @@ prop("C34",
 
 
 prop("C23",
-     units=["errnames"],
+     units=["errnames", "lexerr"],
      level="proof",
      claim="for each of the 12 error kinds the name printed by Display (the English and xlsx form) is parsed back to the same error by "
-           "get_error_by_english_name, names are pairwise distinct, and nothing else is accepted",
+           "get_error_by_english_name, names are pairwise distinct, and nothing else is accepted; in EVERY language the formula lexer answers an error kind only where that "
+           "kind's localized name stands in the text, and the token covers exactly the characters of the name (consume_error)",
      assumptions=["R6: write!(fmt, LIT) arms of Display::fmt are read as the literal they write (formatter plumbing dropped)",
                   "vstd's model of str equality and string literals"],
      residual="localized error names and the 495x5 function-name table are run-time decoded data (language.bin), not a code contract; Functions::lookup/to_localized_name macro tables")
